@@ -201,7 +201,8 @@ Example C04_one_write_txn_can_fail :
 Proof. vm_compute. split; reflexivity. Qed.
 
 (* Non-vacuity: a reachable state with two repos, a merge and a deleted repo; a crash after the
-   second of the four writes of a new version leaves an orphan cache entry and the old repos. *)
+   second of the four writes of a new version leaves a version-id entry that names no node: the next
+   start drops it, saves the id maps, and shows the old repos. *)
 Example C04_crash_concrete :
   let C := w_conf in
   let m0 := init_mgr C in
@@ -212,9 +213,9 @@ Example C04_crash_concrete :
   let img := apply_ws img0 (concat wss) in
   pinv m img = true /\
   map (fun ws => map wkind ws) wss =
-    [[1;2;3;3;1;2;4;7]; [3;4]; [4]; [1;2;3;4]; [1;2;3;4]; [4]; [4]; [1;2;3;4]; [1;2;3;3;1;2;4;7]; [4]; [4]] /\
+    [[1;2;3;3;1;2;4;7]; [3;4]; [4]; [1;2;3;4]; [1;2;3;4]; [4]; [4]; [1;2;3;4]; [1;2;3;3;1;2;4;7]; [4;1;2]; [4]] /\
   match recover C (apply_ws img (firstn 2 (snd (pstep C m (PNewVersion 1 4 None 16))))) with
-  | Ok (mr, wr) => pobserve mr = pobserve m /\ amem 6 (m_v2u mr) = true /\ m_vid mr = 6 /\ wr = [WMut 1 1200]
+  | Ok (mr, wr) => pobserve mr = pobserve m /\ amem 6 (m_v2u mr) = false /\ m_vid mr = 6 /\ map wkind wr = [1; 2; 7]
   | _ => False
   end.
 Proof. vm_compute. repeat split. Qed.
